@@ -1530,7 +1530,7 @@ impl Property for C42b {
         ]
     }
     fn known_signature(&self, case: &Case) -> Option<String> {
-        crate::c42known::signature_b(case)
+        std::panic::catch_unwind(std::panic::AssertUnwindSafe(|| crate::c42known::signature_b(case))).ok().flatten()
     }
     fn run(&self, case: &Case) -> CaseResult {
         let spec = spec_for(case.family, &case.tree);
